@@ -21,13 +21,26 @@ type Inst struct {
 	Ver    int
 	Bare   bool
 	WebURL string
+	Broken bool // HEAD points at a branch that does not exist: IndexGitRepo fails (like an unborn HEAD)
 }
 
-func (i *Inst) Head() string {
-	if i.Tmpl.Empty {
+func (i *Inst) Head() string { return i.HeadFor("HEAD") }
+
+// HeadFor: the branches IndexGitRepo resolves for `-branches <branch>` ("" = it fails). Templates have one branch, main.
+func (i *Inst) HeadFor(branch string) string {
+	switch {
+	case i.Tmpl.Empty:
+		return ""
+	case branch == "HEAD":
+		if i.Broken {
+			return ""
+		}
+		return "HEAD=" + i.Tmpl.Head[i.Ver]
+	case branch == "main":
+		return "main=" + i.Tmpl.Head[i.Ver]
+	default:
 		return ""
 	}
-	return "HEAD=" + i.Tmpl.Head[i.Ver]
 }
 
 // World: one scenario's directories. Base is the working directory of the tool process.
@@ -72,7 +85,7 @@ func NewWorld(base string, tmpls []*Template, r *gen.Rand) *World {
 }
 
 func (w *World) pickTmpl(r *gen.Rand) *Template {
-	if r.Chance(1, 12) {
+	if r.Chance(1, 8) {
 		return w.Tmpls[len(w.Tmpls)-1] // the empty one
 	}
 	return w.Tmpls[r.Intn(len(w.Tmpls)-1)]
@@ -113,9 +126,21 @@ func (w *World) materialise(in *Inst) {
 		}
 	}
 	must(CopyTree(src, in.Path))
+	in.Broken = false
 	if in.WebURL != "" {
 		w.writeWebURL(in)
 	}
+}
+
+// breakHead makes HEAD point at a branch that does not exist: discovery still finds the repository, indexing fails.
+func (w *World) breakHead(in *Inst) {
+	head := filepath.Join(in.Path, ".git", "HEAD")
+	if in.Bare {
+		head = filepath.Join(in.Path, "HEAD")
+	}
+	must(os.WriteFile(head, []byte("ref: refs/heads/gone\n"), 0o644))
+	in.Broken = true
+	w.logf("break HEAD of %s", in.Path)
 }
 
 func (w *World) writeWebURL(in *Inst) {
@@ -221,7 +246,14 @@ func (w *World) MutateRoots(r *gen.Rand) {
 	n := r.Range(0, 3)
 	for i := 0; i < n; i++ {
 		insts := w.instList()
-		switch r.Intn(12) {
+		switch r.Intn(13) {
+		case 12:
+			if len(insts) > 0 {
+				in := gen.Pick(r, insts)
+				if !in.Tmpl.Empty && !in.Broken {
+					w.breakHead(in)
+				}
+			}
 		case 11:
 			// the same relative path in another root: two repositories that would get the same name
 			if len(insts) > 0 && len(w.Roots) > 1 {
@@ -323,6 +355,65 @@ func (w *World) foreignShard(name, source, ver, prefix string, disableCTags bool
 		}
 	}
 	w.logf("foreign shard name=%q source=%q ver=%q prefix=%q noctags=%v", name, source, ver, prefix, disableCTags)
+}
+
+// AddBystanders drops files into the index directory that are not shards: what a killed `sync -f` or a concurrently
+// running one leaves next to the shards (temporary shard / sidecar files "<shard>.<random>.tmp"), a stale lock file, notes,
+// a sub-directory. No command may touch them without saying so; a preview may touch nothing at all.
+func (w *World) AddBystanders(r *gen.Rand) {
+	must(os.MkdirAll(w.Index, 0o755))
+	shards, _ := Inventory(w.Index)
+	n := r.Range(1, 3)
+	for i := 0; i < n; i++ {
+		w.seq++
+		base := fmt.Sprintf("%s_v%d.00000.zoekt", gen.Pick(r, []string{"a", "proj", "team%2Fb", "ghost"}), FormatVersion)
+		content := []byte("partial shard")
+		if len(shards) > 0 && r.Chance(2, 3) {
+			s := gen.Pick(r, shards)
+			base = filepath.Base(s.Path)
+			if b, err := os.ReadFile(s.Path); err == nil {
+				content = b[:len(b)/2] // a half-written copy
+			}
+		}
+		var name string
+		switch r.Intn(8) {
+		case 0, 1, 2:
+			name = fmt.Sprintf("%s.%d.tmp", base, 1000000+w.seq)
+		case 3:
+			name = fmt.Sprintf("%s.meta.%d.tmp", base, 1000000+w.seq)
+			content = []byte("{}")
+		case 4:
+			name = LockFile
+			content = nil
+		case 5:
+			name = fmt.Sprintf("notes%d.txt", w.seq)
+		case 6:
+			name = fmt.Sprintf("other%d.tmp", w.seq)
+		case 7:
+			name = filepath.Join(fmt.Sprintf("subdir%d", w.seq), base)
+			must(os.MkdirAll(filepath.Join(w.Index, filepath.Dir(name)), 0o755))
+		}
+		p := filepath.Join(w.Index, name)
+		if _, err := os.Lstat(p); err == nil {
+			continue
+		}
+		must(os.WriteFile(p, content, 0o644))
+		w.logf("bystander %s", p)
+	}
+}
+
+// Bystanders lists the entries of the index directory that are neither shards nor their sidecars.
+func (w *World) Bystanders() []string {
+	var out []string
+	entries, _ := os.ReadDir(w.Index)
+	for _, e := range entries {
+		n := e.Name()
+		if !e.IsDir() && (strings.HasSuffix(n, ".zoekt") || strings.HasSuffix(n, ".zoekt.meta") || n == LockFile) {
+			continue // shards, sidecars, and the lock file every forced run leaves behind
+		}
+		out = append(out, n)
+	}
+	return out
 }
 
 // MutateIndex changes the index directory behind the tool's back: rename a shard file, delete one, add a sidecar,
@@ -524,8 +615,10 @@ type Round struct {
 	RootsAbs  []string
 	RootArgs  []string
 	Selectors []string
-	RefHash   string // options hash the command's flags produce
-	NNew      int    // shards beyond the first that a build with these flags writes (templates have 3 files)
+	RefHash   string   // options hash the command's flags produce
+	Branch    string   // value of -branches ("HEAD" unless the round sets the flag)
+	Bystand   []string // entries of the index directory that are not shards, before the round
+	NNew      int      // shards beyond the first that a build with these flags writes (templates have 3 files)
 
 	Desired     []Discovered // discovery oracle on RootsAbs (sync)
 	DiscoverErr string
@@ -553,14 +646,23 @@ func (w *World) indexArg(r *gen.Rand) string {
 
 // RunRound performs one round. withPreview=false skips the preview (C34 only needs the forced run).
 func (w *World) RunRound(r *gen.Rand, t *Tool, kind string, withPreview bool) *Round {
-	rd := &Round{World: w, Tool: t, Kind: kind, RefHash: DefaultOptionsHash()}
+	rd := &Round{World: w, Tool: t, Kind: kind, RefHash: DefaultOptionsHash(), Branch: "HEAD"}
 	var args []string
 	if kind == "sync" {
 		if r.Chance(1, 3) {
 			args = append(args, "sync")
 		}
+		switch r.Intn(14) {
+		case 0:
+			rd.Branch = "main" // resolves in every template: recorded as branch "main", so everything is re-indexed
+		case 1:
+			rd.Branch = "nosuch" // resolves nowhere: IndexGitRepo fails for every repository
+		}
+		if rd.Branch != "HEAD" {
+			rd.Flags = append(rd.Flags, "-branches", rd.Branch)
+		}
 		if r.Chance(1, 8) {
-			rd.Flags = []string{"-file_limit", "1234567"}
+			rd.Flags = append(rd.Flags, "-file_limit", "1234567")
 			o := index.Options{SizeMax: 1234567}
 			o.SetDefaults()
 			rd.RefHash = o.GetHash()
@@ -585,6 +687,7 @@ func (w *World) RunRound(r *gen.Rand, t *Tool, kind string, withPreview bool) *R
 	if kind == "remove" {
 		tail = rd.Selectors
 	}
+	rd.Bystand = w.Bystanders()
 	rd.SnapBefore = Snap(w.Index)
 	if withPreview {
 		rd.Preview = run(t, append(append([]string{}, args...), tail...))
@@ -610,10 +713,20 @@ func (rd *Round) ModelRepos() []ModelRepo {
 		for n := 1; n <= 3; n++ {
 			m.More = append(m.More, ShardPath(rd.World.Index, d.Name, n))
 		}
+		branch := rd.Branch
+		if branch == "" {
+			branch = "HEAD"
+		}
 		if in := rd.instAt(d.Source); in != nil {
-			m.Head = in.Head()
-		} else if out, err := git(d.Source, "rev-parse", "--verify", "HEAD"); err == nil {
-			m.Head = "HEAD=" + out // a nested/unknown repository: ask git
+			m.Head = in.HeadFor(branch)
+		} else {
+			ref := "HEAD"
+			if branch != "HEAD" {
+				ref = "refs/heads/" + branch
+			}
+			if out, err := git(d.Source, "rev-parse", "--verify", ref); err == nil {
+				m.Head = branch + "=" + out // a nested/unknown repository: ask git
+			}
 		}
 		rs = append(rs, m)
 	}
